@@ -17,7 +17,7 @@ CFG_FULL = {
     "unreg": True, "setc": True, "funs": ("F1",), "knobs": ("K1",),
 }
 CFG_MIX = {
-    "values": (3,), "index_values": (0, 1), "templates": ("mul2", "add", "dbl", "total", "dyn", "abs2"),
+    "values": (3,), "index_values": (0, 1), "templates": ("mul2", "add", "dbl", "total", "dyn", "abs2", "pair1", "cplx"),
     "iops": (("sub", ("lit", 1)),), "unreg": True, "setc": True, "funs": ("F1",), "knobs": ("K1",),
 }
 CFG_REDUCED = {"values": (3,), "templates": ("mul2", "inc"), "unreg": True}
